@@ -37,7 +37,10 @@ META = dict(
                "NAME, independently of the order) and recomputed by vm_compute on every graph used incl. all shipped graph literals; "
                "F_mix (row-wise node functions) is only needed for partial reverts (C01_never_stale_full_reverts_nomix), proved for "
                "the op-kind node functions of C07 with any number of parents (C02_F_mix_opkinds) and for one-parent entry-wise toy nodes "
-               "(C02_F_mix_entrywise), a hypothesis for other functions; exercised incl. +-inf/NaN by the tie and the oracle; torch kernels, deepcopy, REF-mode aliasing under in-place mutation are outside the model. "
+               "(C02_F_mix_entrywise) and — on values of ANY trailing shape, both alignments of revert(subset, right_broadcasting) — for the whole entry-wise "
+               "toy vocabulary: affine maps of any number of parents, the weighted one-parent maps, a two-parent map of weighted parents (C01_F_mix_nd, "
+               "C01_never_stale_nd; State/StateNdExec.v, tied by toy histories on n-d graphs run inside Coq); a hypothesis for other functions, false for what "
+               "torch does outside the documented contract (0-d per-individual values, a value weighted on one side only); exercised incl. +-inf/NaN by the tie and the oracle; torch kernels, deepcopy, REF-mode aliasing under in-place mutation are outside the model. "
                "Former finding F1 (fork-mode-switch-stale-revert) is fixed by 27ac519 and the blend of partial reverts (F2 of C02) by "
                "fe0cadd; a tree whose __setitem__ keeps the fork on an un-forked assignment, or whose revert(subset) blends, is reported "
                "as a violation with the stale-read history as replay.",
@@ -61,7 +64,7 @@ OBLIGATIONS = [
     "C01_weighted_select_rows", "C01_F_mix_weighted", "C01_never_stale_weighted", "C01_weighted_examples",
     # n-d values (State/StateNdExec.v): trailing shapes, both alignments of revert(subset), F_mix PROVED for multi-parent entry-wise
     # functions of plain and of weighted parents
-    "C01_F_mix_nd", "C01_never_stale_nd", "C01_nd_examples",
+    "C01_F_mix_nd", "C01_never_stale_nd", "C01_nd_examples", "C01_never_stale_scoped_nd", "C01_nd_scoped_example",
 ]
 
 # The model variant the theorems of Props/C01.v are about (State/StateNow.v): True = State.__setitem__ as it is since 27ac519
@@ -604,6 +607,16 @@ def toy_histories(run: Run, n_hist, n_weighted=0, n_nd=0):
     if FX == CLAIMED_FX and f1["histories_with_read_after_that_revert"] < max(5, n_hist // 100):
         run.broken("generator:f1-shape", f"the toy-history generator produced too few histories of the F1 shape: {f1}", kind="broken-correspondence")
     correspond(run, "toy", sessions, metas)
+    # the theorems C01_F_mix_nd / C01_never_stale_nd speak about the graphs accepted by `entrywise_axis_b`: decided inside Coq on every
+    # generated n-d graph literal (the generator is meant to stay inside that class: aggregates never carry the individual axis)
+    nd_graphs = [s.G.coq() for s in sessions if s.G.nd]
+    if nd_graphs:
+        out = run.vm_bad_indices("toy_nd_class", GHEADER, "list dspec", nd_graphs, "(fun l => gwf_b (mk_ngraph l) && entrywise_axis_b l)", shard=150)
+        if out is not None:
+            ndst["graphs_in_the_class_F_mix_is_proved_for"] = len(nd_graphs) - len(out)
+            if out:
+                run.broken("tie:nd-class", f"{len(out)} generated n-d graphs are outside the class for which F_mix is proved (entrywise_axis_b): "
+                           "C01_never_stale_nd does not speak about them", kind="broken-correspondence")
 
 
 def directed(run: Run):
@@ -1307,7 +1320,7 @@ def main(run: Run):
     except Exception as e:  # noqa
         import traceback
         run.broken("directed-weighted", f"{type(e).__name__}: {e}\n{traceback.format_exc()[-1500:]}")
-    toy_histories(run, 6000 if thorough else 1500, n_weighted=1600 if thorough else 400, n_nd=1600 if thorough else 400)
+    toy_histories(run, 6000 if thorough else 1500, n_weighted=1600 if thorough else 400, n_nd=1600 if thorough else 250)
     if thorough:
         exhaustive_diamond(run, 3)
     kinds = [("logistic", {}), ("logistic", dict(source_dimension=2))]
